@@ -1,0 +1,90 @@
+//go:build verif
+
+// Machine-checked contracts for package volatility (read by /verif/govc; comment-only).
+
+package volatility
+
+//@ func AccelerationBands.Compute
+//@ requires a.Period >= 1 && consumed(high) == 0 && consumed(low) == 0 && consumed(closing) == 0 && len(high) == len(low) && len(high) == len(closing)
+//@ ensures[C02] len(result0) == max(0, len(high) - (a.IdlePeriod())) && len(result1) == max(0, len(high) - (a.IdlePeriod())) && len(result2) == max(0, len(high) - (a.IdlePeriod()))
+//@ ensures[C03] consumed(high) == len(high) && consumed(low) == len(low) && consumed(closing) == len(closing) && closed(result0) && closed(result1) && closed(result2)
+//@ ensures[C04] forall kk :: 0 <= kk && kk < len(result0) ==> hor(result0, kk) <= max(hor(high, kk + (a.IdlePeriod())), max(hor(low, kk + (a.IdlePeriod())), hor(closing, kk + (a.IdlePeriod()))))
+//@ ensures[C04] forall kk :: 0 <= kk && kk < len(result1) ==> hor(result1, kk) <= max(hor(high, kk + (a.IdlePeriod())), max(hor(low, kk + (a.IdlePeriod())), hor(closing, kk + (a.IdlePeriod()))))
+//@ ensures[C04] forall kk :: 0 <= kk && kk < len(result2) ==> hor(result2, kk) <= max(hor(high, kk + (a.IdlePeriod())), max(hor(low, kk + (a.IdlePeriod())), hor(closing, kk + (a.IdlePeriod()))))
+
+//@ func Atr.Compute
+//@ requires consumed(highs) == 0 && consumed(lows) == 0 && consumed(closings) == 0 && len(highs) == len(lows) && len(highs) == len(closings)
+//@ ensures[C02] len(result) == max(0, len(highs) - (a.IdlePeriod()))
+//@ ensures[C03] consumed(highs) == len(highs) && consumed(lows) == len(lows) && consumed(closings) == len(closings) && closed(result)
+//@ ensures[C04] forall kk :: 0 <= kk && kk < len(result) ==> hor(result, kk) <= max(hor(highs, kk + (a.IdlePeriod())), max(hor(lows, kk + (a.IdlePeriod())), hor(closings, kk + (a.IdlePeriod()))))
+
+//@ func BollingerBands.Compute
+//@ requires b.Period >= 1 && consumed(c) == 0
+//@ ensures[C02] len(result0) == max(0, len(c) - (b.IdlePeriod())) && len(result1) == max(0, len(c) - (b.IdlePeriod())) && len(result2) == max(0, len(c) - (b.IdlePeriod()))
+//@ ensures[C03] consumed(c) == len(c) && closed(result0) && closed(result1) && closed(result2)
+//@ ensures[C04] forall kk :: 0 <= kk && kk < len(result0) ==> hor(result0, kk) <= hor(c, kk + (b.IdlePeriod()))
+//@ ensures[C04] forall kk :: 0 <= kk && kk < len(result1) ==> hor(result1, kk) <= hor(c, kk + (b.IdlePeriod()))
+//@ ensures[C04] forall kk :: 0 <= kk && kk < len(result2) ==> hor(result2, kk) <= hor(c, kk + (b.IdlePeriod()))
+
+//@ func BollingerBandWidth.Compute
+//@ requires b.BollingerBands.Period >= 1 && consumed(c) == 0
+//@ ensures[C02] len(result) == max(0, len(c) - (b.IdlePeriod()))
+//@ ensures[C03] consumed(c) == len(c) && closed(result)
+//@ ensures[C04] forall kk :: 0 <= kk && kk < len(result) ==> hor(result, kk) <= hor(c, kk + (b.IdlePeriod()))
+
+//@ func ChandelierExit.Compute
+//@ requires c.Period >= 1 && consumed(highs) == 0 && consumed(lows) == 0 && consumed(closings) == 0 && len(highs) == len(lows) && len(highs) == len(closings)
+//@ ensures[C02] len(result0) == max(0, len(highs) - (c.IdlePeriod())) && len(result1) == max(0, len(highs) - (c.IdlePeriod()))
+//@ ensures[C03] consumed(highs) == len(highs) && consumed(lows) == len(lows) && consumed(closings) == len(closings) && closed(result0) && closed(result1)
+//@ ensures[C04] forall kk :: 0 <= kk && kk < len(result0) ==> hor(result0, kk) <= max(hor(highs, kk + (c.IdlePeriod())), max(hor(lows, kk + (c.IdlePeriod())), hor(closings, kk + (c.IdlePeriod()))))
+//@ ensures[C04] forall kk :: 0 <= kk && kk < len(result1) ==> hor(result1, kk) <= max(hor(highs, kk + (c.IdlePeriod())), max(hor(lows, kk + (c.IdlePeriod())), hor(closings, kk + (c.IdlePeriod()))))
+
+//@ func DonchianChannel.Compute
+//@ requires d.Max.Period >= 1 && d.Min.Period == d.Max.Period && consumed(c) == 0
+//@ ensures[C02] len(result0) == max(0, len(c) - (d.IdlePeriod())) && len(result1) == max(0, len(c) - (d.IdlePeriod())) && len(result2) == max(0, len(c) - (d.IdlePeriod()))
+//@ ensures[C03] consumed(c) == len(c) && closed(result0) && closed(result1) && closed(result2)
+//@ ensures[C04] forall kk :: 0 <= kk && kk < len(result0) ==> hor(result0, kk) <= hor(c, kk + (d.IdlePeriod()))
+//@ ensures[C04] forall kk :: 0 <= kk && kk < len(result1) ==> hor(result1, kk) <= hor(c, kk + (d.IdlePeriod()))
+//@ ensures[C04] forall kk :: 0 <= kk && kk < len(result2) ==> hor(result2, kk) <= hor(c, kk + (d.IdlePeriod()))
+
+//@ func KeltnerChannel.Compute
+//@ requires k.Ema.Period >= 1 && k.Atr.IdlePeriod() >= k.Ema.IdlePeriod() && consumed(highs) == 0 && consumed(lows) == 0 && consumed(closings) == 0 && len(highs) == len(lows) && len(highs) == len(closings)
+//@ ensures[C02] len(result0) == max(0, len(highs) - (k.IdlePeriod())) && len(result1) == max(0, len(highs) - (k.IdlePeriod())) && len(result2) == max(0, len(highs) - (k.IdlePeriod()))
+//@ ensures[C03] consumed(highs) == len(highs) && consumed(lows) == len(lows) && consumed(closings) == len(closings) && closed(result0) && closed(result1) && closed(result2)
+//@ ensures[C04] forall kk :: 0 <= kk && kk < len(result0) ==> hor(result0, kk) <= max(hor(highs, kk + (k.IdlePeriod())), max(hor(lows, kk + (k.IdlePeriod())), hor(closings, kk + (k.IdlePeriod()))))
+//@ ensures[C04] forall kk :: 0 <= kk && kk < len(result1) ==> hor(result1, kk) <= max(hor(highs, kk + (k.IdlePeriod())), max(hor(lows, kk + (k.IdlePeriod())), hor(closings, kk + (k.IdlePeriod()))))
+//@ ensures[C04] forall kk :: 0 <= kk && kk < len(result2) ==> hor(result2, kk) <= max(hor(highs, kk + (k.IdlePeriod())), max(hor(lows, kk + (k.IdlePeriod())), hor(closings, kk + (k.IdlePeriod()))))
+
+//@ func MovingStd.Compute
+//@ requires m.Period >= 1 && consumed(c) == 0
+//@ ensures[C02] len(result) == max(0, len(c) - (m.IdlePeriod()))
+//@ ensures[C03] consumed(c) == len(c) && closed(result)
+//@ ensures[C04] forall kk :: 0 <= kk && kk < len(result) ==> hor(result, kk) <= hor(c, kk + (m.IdlePeriod()))
+//@ loop#0 invariant rwf(ring) && len(ring.buffer) == m.Period && rsize(ring) == min(m.Period, consumed(c)) && !closed(result)
+//@ loop#0 invariant sent(result) == max(0, consumed(c) - (m.Period - 1))
+//@ loop#0 invariant forall k :: 0 <= k && k < sent(result) ==> hor(result, k) <= hor(c, k + m.Period - 1)
+//@ loop#1 invariant 0 <= i && i <= m.Period && rwf(ring) && len(ring.buffer) == m.Period
+
+//@ func PercentB.Compute
+//@ requires p.BollingerBands.Period >= 1 && consumed(closings) == 0
+//@ ensures[C02] len(result) == max(0, len(closings) - (p.IdlePeriod()))
+//@ ensures[C03] consumed(closings) == len(closings) && closed(result)
+//@ ensures[C04] forall kk :: 0 <= kk && kk < len(result) ==> hor(result, kk) <= hor(closings, kk + (p.IdlePeriod()))
+
+//@ func Po.Compute
+//@ requires p.mls.Sum.Period >= 1 && p.min.Period >= 1 && p.max.Period == p.min.Period && consumed(highs) == 0 && consumed(lows) == 0 && consumed(closings) == 0 && len(highs) == len(lows) && len(highs) == len(closings)
+//@ ensures[C02] len(result) == max(0, len(highs) - (p.IdlePeriod()))
+//@ ensures[C03] consumed(highs) == len(highs) && consumed(lows) == len(lows) && consumed(closings) == len(closings) && closed(result)
+//@ ensures[C04] forall kk :: 0 <= kk && kk < len(result) ==> hor(result, kk) <= max(hor(highs, kk + (p.IdlePeriod())), max(hor(lows, kk + (p.IdlePeriod())), hor(closings, kk + (p.IdlePeriod()))))
+
+//@ func SuperTrend.Compute
+//@ requires consumed(highs) == 0 && consumed(lows) == 0 && consumed(closings) == 0 && len(highs) == len(lows) && len(highs) == len(closings)
+//@ ensures[C02] len(result) == max(0, len(highs) - (s.IdlePeriod()))
+//@ ensures[C03] consumed(highs) == len(highs) && consumed(lows) == len(lows) && consumed(closings) == len(closings) && closed(result)
+//@ ensures[C04] forall kk :: 0 <= kk && kk < len(result) ==> hor(result, kk) <= max(hor(highs, kk + (s.IdlePeriod())), max(hor(lows, kk + (s.IdlePeriod())), hor(closings, kk + (s.IdlePeriod()))))
+
+//@ func UlcerIndex.Compute
+//@ requires u.Period >= 1 && consumed(closings) == 0
+//@ ensures[C02] len(result) == max(0, len(closings) - (u.IdlePeriod()))
+//@ ensures[C03] consumed(closings) == len(closings) && closed(result)
+//@ ensures[C04] forall kk :: 0 <= kk && kk < len(result) ==> hor(result, kk) <= hor(closings, kk + (u.IdlePeriod()))
